@@ -6,6 +6,8 @@
 package vsync
 
 import (
+	"fmt"
+	"sort"
 	"sync"
 
 	"github.com/bilibili/gengine/verifrt/vsched"
@@ -30,6 +32,13 @@ func (m *Mutex) Unlock() {
 		return
 	}
 	m.m.Unlock()
+}
+
+func (m *Mutex) TryLock() bool {
+	if e := vsched.Cur(); e != nil {
+		return e.TryLock(&m.ref, false)
+	}
+	return m.m.TryLock()
 }
 
 type RWMutex struct {
@@ -68,6 +77,28 @@ func (m *RWMutex) RUnlock() {
 	}
 	m.m.RUnlock()
 }
+
+func (m *RWMutex) TryLock() bool {
+	if e := vsched.Cur(); e != nil {
+		return e.TryLock(&m.ref, false)
+	}
+	return m.m.TryLock()
+}
+
+func (m *RWMutex) TryRLock() bool {
+	if e := vsched.Cur(); e != nil {
+		return e.TryLock(&m.ref, true)
+	}
+	return m.m.TryRLock()
+}
+
+type rlocker RWMutex
+
+func (r *rlocker) Lock()   { (*RWMutex)(r).RLock() }
+func (r *rlocker) Unlock() { (*RWMutex)(r).RUnlock() }
+
+// RLocker returns a Locker whose Lock / Unlock are m.RLock / m.RUnlock.
+func (m *RWMutex) RLocker() Locker { return (*rlocker)(m) }
 
 type WaitGroup struct {
 	w   sync.WaitGroup
@@ -114,6 +145,31 @@ func (o *Once) Do(f func()) {
 	}
 }
 
+// OnceFunc, OnceValue, OnceValues as in package sync, on top of the shim Once.
+func OnceFunc(f func()) func() {
+	var o Once
+	return func() { o.Do(f) }
+}
+
+func OnceValue[T any](f func() T) func() T {
+	var o Once
+	var v T
+	return func() T {
+		o.Do(func() { v = f() })
+		return v
+	}
+}
+
+func OnceValues[T1, T2 any](f func() (T1, T2)) func() (T1, T2) {
+	var o Once
+	var v1 T1
+	var v2 T2
+	return func() (T1, T2) {
+		o.Do(func() { v1, v2 = f() })
+		return v1, v2
+	}
+}
+
 // Cond: Wait releases L, parks until signalled (modelled), re-acquires L.
 type Cond struct {
 	L    Locker
@@ -157,9 +213,97 @@ func (c *Cond) Broadcast() {
 	c.realCond().Broadcast()
 }
 
-// Types the scheduler does not need to model are passed through unchanged.
-type (
-	Map    = sync.Map
-	Pool   = sync.Pool
-	Locker = sync.Locker
-)
+// Map: every operation is one atomic step on the map (a scheduling point, and both an acquire and
+// a release: what was written before a Store is visible after the Load that finds it).
+type Map struct {
+	m sync.Map
+}
+
+func (m *Map) op() { vsched.AtomicP(m) }
+
+// RawRange visits the entries without being an operation of the model (harness use: copying a template).
+func (m *Map) RawRange(f func(key, value interface{}) bool) { m.m.Range(f) }
+
+// RawStore stores without being an operation of the model.
+func (m *Map) RawStore(key, value interface{}) { m.m.Store(key, value) }
+
+func (m *Map) Load(key interface{}) (interface{}, bool) { m.op(); return m.m.Load(key) }
+func (m *Map) Store(key, value interface{})             { m.op(); m.m.Store(key, value) }
+func (m *Map) LoadOrStore(key, value interface{}) (interface{}, bool) {
+	m.op()
+	return m.m.LoadOrStore(key, value)
+}
+func (m *Map) LoadAndDelete(key interface{}) (interface{}, bool) {
+	m.op()
+	return m.m.LoadAndDelete(key)
+}
+func (m *Map) Delete(key interface{})                          { m.op(); m.m.Delete(key) }
+func (m *Map) Swap(key, value interface{}) (interface{}, bool) { m.op(); return m.m.Swap(key, value) }
+func (m *Map) CompareAndSwap(key, old, new interface{}) bool {
+	m.op()
+	return m.m.CompareAndSwap(key, old, new)
+}
+func (m *Map) CompareAndDelete(key, old interface{}) bool {
+	m.op()
+	return m.m.CompareAndDelete(key, old)
+}
+func (m *Map) Range(f func(key, value interface{}) bool) {
+	m.op()
+	// a deterministic order: sync.Map ranges in an unspecified one
+	type kv struct{ k, v interface{} }
+	var all []kv
+	m.m.Range(func(k, v interface{}) bool { all = append(all, kv{k, v}); return true })
+	if vsched.Cur() != nil {
+		sort.SliceStable(all, func(i, j int) bool { return fmt.Sprint(all[i].k) < fmt.Sprint(all[j].k) })
+	}
+	for _, e := range all {
+		if !f(e.k, e.v) {
+			return
+		}
+	}
+}
+
+// Pool: the real sync.Pool keeps per-P caches and is emptied by the garbage collector, which makes
+// executions irreproducible. Under a controlled execution this one is a plain LIFO stack that starts
+// empty in every execution (Put -> Get is a happens-before edge); detached it is the real pool.
+type Pool struct {
+	New   func() interface{}
+	real  sync.Pool
+	items []interface{}
+	epoch uint64
+	once  sync.Once
+}
+
+func (p *Pool) Get() interface{} {
+	if e := vsched.Cur(); e != nil {
+		vsched.AtomicP(p)
+		if p.epoch != e.Epoch() {
+			p.epoch, p.items = e.Epoch(), nil
+		}
+		if n := len(p.items); n > 0 {
+			x := p.items[n-1]
+			p.items = p.items[:n-1]
+			return x
+		}
+		if p.New != nil {
+			return p.New()
+		}
+		return nil
+	}
+	p.once.Do(func() { p.real.New = p.New })
+	return p.real.Get()
+}
+
+func (p *Pool) Put(x interface{}) {
+	if e := vsched.Cur(); e != nil {
+		vsched.AtomicP(p)
+		if p.epoch != e.Epoch() {
+			p.epoch, p.items = e.Epoch(), nil
+		}
+		p.items = append(p.items, x)
+		return
+	}
+	p.real.Put(x)
+}
+
+type Locker = sync.Locker
